@@ -105,7 +105,19 @@ theorem mapAtL_not_mem (o : Nat) (f : DN → DN) (bs : List DN) (h : o ∉ DN.oi
     rw [mapAt_not_mem o f b h.1, mapAtL_not_mem o f bs h.2]
 end
 
-/-- An edit of any kind on an element of the copy leaves the original exactly as it was … -/
+/-! STATUS of the two independence theorems below (review B, M5).  In this value model a tree *is* its value and an
+    edit is addressed to an object id, so "an edit on the copy leaves the original" reduces to `mapAt_not_mem`:
+    an edit addressed to an object id that does not occur in a tree changes nothing in that tree.  That is true
+    of ANY two trees with disjoint object ids; the only pickle-specific input is `unpickle_disjoint` (the copy
+    is made of fresh object ids).  What the property means by "shares no mutable state" — no aliasing in the
+    Python object graph (a shared style object, attribute dict, blocks / children / class list) — is not
+    expressible here and is decided by the oracle of the tie (identity comparison of every mutable object of
+    the two sides, edits on each side observed on the other), not by these theorems.  Likewise `clone_not_eq`
+    takes the freshness of the new uid as a hypothesis (uid generation is not modelled) and "clone shares no
+    mutable state" has no statement beyond `clone_eq`. -/
+
+/-- An edit of any kind on an element of the copy leaves the original exactly as it was … (a fact about
+    disjoint object ids: `mapAt_not_mem` + `unpickle_disjoint`; see the status note above) -/
 theorem edit_copy_leaves_original (ρ : Option Nat → Option Nat) (t : DN) (h : WFT t) (n : Nat) (t' : DN) (m : Nat)
     (e : roundTrip ρ t n = some (t', m)) (hfresh : ∀ o ∈ DN.oids t, o < n)
     (target : Nat) (ht : target ∈ DN.oids t') (oid uid : Nat) (ed : Edit) :
@@ -113,7 +125,7 @@ theorem edit_copy_leaves_original (ρ : Option Nat → Option Nat) (t : DN) (h :
   have hd := unpickle_disjoint ρ t h n t' m e (DN.oids t) hfresh target ht
   cases ed <;> simp only [applyEdit] <;> (try split) <;> first | exact mapAt_not_mem _ _ _ hd | rfl
 
-/-- … and an edit on an element of the original leaves the copy exactly as it was. -/
+/-- … and an edit on an element of the original leaves the copy exactly as it was (same remark). -/
 theorem edit_original_leaves_copy (ρ : Option Nat → Option Nat) (t : DN) (h : WFT t) (n : Nat) (t' : DN) (m : Nat)
     (e : roundTrip ρ t n = some (t', m)) (hfresh : ∀ o ∈ DN.oids t, o < n)
     (target : Nat) (ht : target ∈ DN.oids t) (oid uid : Nat) (ed : Edit) :
@@ -170,8 +182,11 @@ theorem parser_unpickle_empty (p : Parser) (hr : p.root = none) (n : Nat) :
   unfold Parser.roundTrip
   simp [hr]
 
-/-- Pickling leaves the original parser's `reset` hook in place (the repaired `__getstate__`). -/
-theorem getstate_keeps_reset (p : Parser) : p.afterGetstate.hasReset = p.hasReset := rfl
+/-- BY CONSTRUCTION OF THE MODEL (`rfl`): `Parser.afterGetstate` is *defined* as `{ p with root := … }`, so the
+    hook is kept by definition.  Pickling leaves the original parser's `reset` hook in place in the repaired
+    `__getstate__`; the defect it had (c6b9dce) could not have contradicted this statement — it was found, and
+    the clause is decided, by the tie (`reset` present on both sides after every `dumps`; parser re-use). -/
+theorem getstate_keeps_reset_by_construction (p : Parser) : p.afterGetstate.hasReset = p.hasReset := rfl
 
 /-! #### working indexes: references are carried to the same document position of the copy -/
 
